@@ -119,13 +119,16 @@ NestedAnswers == <<
    <<AL(<<Inner(<<Leaf(Sa), Leaf(Sb)>>), Inner(<<Leaf(Sc)>>)>>, Half, TRUE)>>,
    <<AL(<< <<AL(<<Leaf(Sa), Leaf(Sb)>>, One, FALSE), AL(<<Leaf(Sc), Leaf(Sd)>>, Half, FALSE)>> >>, One, TRUE)>>,
    <<AL(<<Inner(<<Leaf(Sa)>>), Inner(<<Leaf(Sb)>>)>>, One, TRUE), AL(<<Inner(<<Leaf(Sc), Leaf(Sd)>>), Inner(<<Leaf(Sa)>>)>>, One, FALSE)>> >>
-\* flags <<outer ordered, inner ordered, outer partial, inner partial, missingErr (both levels)>>
-NestedFlags == IF Quick THEN {<<oo, io, op, TRUE, TRUE>> : oo \in BOOLEAN, io \in BOOLEAN, op \in BOOLEAN}
-                              \cup {<<FALSE, FALSE, TRUE, FALSE, FALSE>>, <<TRUE, FALSE, TRUE, FALSE, FALSE>>}
-               ELSE {<<oo, io, op, f[1], f[2]>> : oo \in BOOLEAN, io \in BOOLEAN, op \in BOOLEAN,
+\* flags <<outer ordered, inner ordered, outer partial, inner partial, missingErr (both levels), inner lengthErr>>
+\* (inner lengthErr: every pairing of a submitted inner list with an expected inner list of another length must raise,
+\*  also when the same inner text was acceptable for a different expected list a moment before)
+NestedFlags == IF Quick THEN {<<oo, io, op, TRUE, TRUE, FALSE>> : oo \in BOOLEAN, io \in BOOLEAN, op \in BOOLEAN}
+                              \cup {<<FALSE, FALSE, TRUE, FALSE, FALSE, FALSE>>, <<TRUE, FALSE, TRUE, FALSE, FALSE, FALSE>>}
+                              \cup {<<FALSE, FALSE, TRUE, TRUE, FALSE, TRUE>>, <<TRUE, FALSE, TRUE, TRUE, FALSE, TRUE>>}
+               ELSE {<<oo, io, op, f[1], f[2], il>> : oo \in BOOLEAN, io \in BOOLEAN, op \in BOOLEAN, il \in BOOLEAN,
                                                     f \in {<<TRUE, TRUE>>, <<TRUE, FALSE>>, <<FALSE, TRUE>>}}
 NestedProblems ==
-  SetToSeqR({Prob(G(f[1], f[3], FALSE, f[5], Semi, G(f[2], f[4], FALSE, f[5], Comma, TableSub)), "list",
+  SetToSeqR({Prob(G(f[1], f[3], FALSE, f[5], Semi, G(f[2], f[4], f[6], f[5], Comma, TableSub)), "list",
                   NestedAnswers[a], <<>>, NestedT) : f \in NestedFlags, a \in DOMAIN NestedAnswers})
 NestedLeaves == IF Quick THEN {Sa, Sb, Sc, <<>>} ELSE {Sa, Sb, Sc, Sd, Sh, <<>>}
 NestedInnerTexts == {Join(s, Comma) : s \in SeqsBetween(NestedLeaves, 1, 2)}
